@@ -24,7 +24,7 @@ import (
 type StyleSheet struct {
 	// We declare a StyleSheet not as a string but as a struct wrapping a string
 	// to prevent construction of StyleSheet values through string conversion.
-	str string
+	styleSheet string
 }
 
 // StyleSheetFromConstant constructs a StyleSheet with the
@@ -117,5 +117,5 @@ var matchingBrackets = map[byte]byte{
 
 // String returns the string form of the StyleSheet.
 func (s StyleSheet) String() string {
-	return s.str
+	return s.styleSheet
 }
